@@ -380,8 +380,11 @@ func (c *ClientConn) maybeCachePrepared(request Request, raw *frame.RawFrame) {
 func (c *ClientConn) Closing(err error) {
 	c.closingMu.Lock()
 	c.closing = true
-	c.pending.closing(err)
 	c.closingMu.Unlock()
+	// Notify pending requests after releasing the lock: their OnClose may re-send on another connection that is
+	// closing at the same time, which would otherwise deadlock both connections' Closing calls on each other's lock.
+	// No request can be added once `closing` is set, so the set of pending requests is final here.
+	c.pending.closing(err)
 }
 
 func (c *ClientConn) addToPending(request Request) (int16, error) {
